@@ -5,8 +5,9 @@ import FV.Model.Netlist
   (frame/die/yaml_parse_die.py:11-60) that `FV/Model/Die.lean` left to the harness:
 
     * what the constructor receives as `stream` (`Src`): a `str` (tried as the `<w>x<h>` shorthand by `string_die`, else handed
-      to `read_yaml`), a `list`/`dict` tree (`read_yaml` hands it back), or any other object
-      (`assert isinstance(stream, TextIO)`);
+      to `read_yaml`), a `list`/`dict` tree (`read_yaml` hands it back), an open text stream (`io.TextIOBase`: `read_yaml` reads
+      and parses it — no shorthand there; `read_yaml` as repaired by fixes/C04_read_yaml_handle.diff), or any other object
+      (`assert isinstance(stream, io.TextIOBase)`);
     * the attached netlist: `Netlist(ndoc)` is constructed by the caller BEFORE the die (it installs the class-wide tolerance
       when none is defined), and `Die.__init__` takes `netlist.fixed_rectangles()`:
           self._fixed = [] if netlist is None else netlist.fixed_rectangles()
@@ -14,7 +15,7 @@ import FV.Model.Netlist
       list `Netlist.rectangles` keeps the DOCUMENT order (it is built before `create_stog` reorders each module's own list).
       The STOG role a fixed rectangle carries is not part of this model (the die never reads `Rectangle.location`).
 
-  Text layer (trusted, parameters): `pf` = Python's `float(str)` (`none` = `ValueError`), `ry` = `read_yaml` on a `str`
+  Text layer (trusted, parameters): `pf` = Python's `float(str)` on the characters of a piece (`none` = `ValueError`), `ry` = `read_yaml` on a `str`
   (`none` = the text layer raised: not a file, not YAML).  `sqrt` = `math.sqrt`, `tiny` = the literal `1e-12`,
   `stogOf ε εA` = `create_stog` under the tolerances in force (instantiated with the C06 model in the driver).
 
@@ -44,13 +45,22 @@ def Err.ofDie : Die.Err → Err
 inductive Src (α : Type) where
   | str (s : String)
   | tree (t : YV α)
+  | handle (t : Option (YV α))     -- an open text stream; `t` = what `read_yaml` makes of its content (`none` = it raised)
   | other
   deriving Inhabited
 
+/-- `die.rsplit('x')` on the characters of the string (no `maxsplit`: the same pieces as `split('x')`; never empty). -/
+def splitX : List Char → List (List Char)
+  | [] => [[]]
+  | c :: cs =>
+    match splitX cs with
+    | [] => [[]]                                   -- unreachable
+    | p :: ps => if c = 'x' then [] :: p :: ps else (c :: p) :: ps
+
 /-- `string_die(die)`: `numbers = die.rsplit('x')`; two pieces, both accepted by `float()` → `assert w > 0 and h > 0`, the
-    shape; otherwise `None`. -/
-def stringDie (pf : String → Option α) (s : String) : Option (Except Die.Err (α × α)) :=
-  match s.splitOn "x" with
+    shape; otherwise `None`.  `pf` = `float()` on a piece (given by its characters). -/
+def stringDie (pf : List Char → Option α) (s : String) : Option (Except Die.Err (α × α)) :=
+  match splitX s.toList with
   | [a, b] =>
     match pf a, pf b with
     | some w, some h => some (if decide (zero < w) && decide (zero < h) then .ok (w, h) else .error .assert)
@@ -58,7 +68,7 @@ def stringDie (pf : String → Option α) (s : String) : Option (Except Die.Err 
   | _ => none
 
 /-- `parse_yaml_die(stream)`. -/
-def parseYamlDie (pf : String → Option α) (ry : String → Option (YV α)) : Src α → Except Err (DieIn α)
+def parseYamlDie (pf : List Char → Option α) (ry : String → Option (YV α)) : Src α → Except Err (DieIn α)
   | .str s =>
     match stringDie pf s with
     | some (.ok (w, h)) => .ok { W := w, H := h, regions := [] }
@@ -68,6 +78,8 @@ def parseYamlDie (pf : String → Option α) (ry : String → Option (YV α)) : 
       | none => .error .text
       | some t => match parseDie t with | .ok inp => .ok inp | .error e => .error (Err.ofDie e)
   | .tree t => match parseDie t with | .ok inp => .ok inp | .error e => .error (Err.ofDie e)
+  | .handle none => .error .text
+  | .handle (some t) => match parseDie t with | .ok inp => .ok inp | .error e => .error (Err.ofDie e)
   | .other => .error .assert
 
 /-- `Die.__init__` after `parse_yaml_die` (the body of `dieModel` after parsing). -/
@@ -117,7 +129,7 @@ def loadNetlist (sqrt : α → α) (tiny : α) (stogOf : α → α → List (NL.
 
 /-- `Die(stream, Netlist(ndoc))` resp. `Die(stream)` (`ndoc = none`), from the documents.
     `picks = none` runs the deterministic cover. -/
-def construct (pf : String → Option α) (ry : String → Option (YV α)) (sqrt : α → α) (tiny : α)
+def construct (pf : List Char → Option α) (ry : String → Option (YV α)) (sqrt : α → α) (tiny : α)
     (stogOf : α → α → List (NL.NRect α) → List (NL.NRect α))
     (st : Option (α × α)) (ndoc : Option (YVal α)) (src : Src α) (picks : Option (List IRect)) :
     Except Err (DieOut α × Eps α × (α × α)) :=
@@ -137,7 +149,7 @@ def construct (pf : String → Option α) (ry : String → Option (YV α)) (sqrt
       | .ok r => .ok r
 
 /-- the Hanan grid and the cell matrix the constructor works on (for translating observed ground rectangles to picks). -/
-def gridFor (pf : String → Option α) (ry : String → Option (YV α)) (sqrt : α → α) (tiny : α)
+def gridFor (pf : List Char → Option α) (ry : String → Option (YV α)) (sqrt : α → α) (tiny : α)
     (stogOf : α → α → List (NL.NRect α) → List (NL.NRect α))
     (st : Option (α × α)) (ndoc : Option (YVal α)) (src : Src α) :
     Except Err (DieIn α × List (Rect α) × Eps α) :=
